@@ -1,7 +1,11 @@
 #!/bin/bash
-# Offline setup: full .vo build of the Coq development (no -vos/-vok).
+# Offline setup: full .vo build (no -vos/-vok) of the Coq development needed by the claimed checks.
 set -e
 cd "$(dirname "$0")/coq"
 { echo "-Q . Supp"; find Lib Model Proofs Props -name '*.v' 2>/dev/null | LC_ALL=C sort; } > _CoqProject
 coq_makefile -f _CoqProject -o Makefile
-timeout 3000 make -j16
+targets=""
+for id in $(cat ../manifest.d/ENABLED); do
+  [ -f "Props/$id.v" ] && targets="$targets Props/$id.vo"
+done
+timeout 3000 make -j16 $targets
